@@ -241,6 +241,9 @@ fn dispatch_search(cmd: &str, args: &[String], tier: &String, seed: u64, out: &S
         "c01-hist" => posprops::replay_hist(Which::C01, &arg(&args, "--fens").unwrap()),
         "c02-hist" => posprops::replay_hist(Which::C02, &arg(&args, "--fens").unwrap()),
         "c17-hist" => posprops::replay_hist(Which::C17, &arg(&args, "--fens").unwrap()),
+        "c01-path" => posprops::replay_path(Which::C01, &arg(&args, "--moves").unwrap_or_default()),
+        "c02-path" => posprops::replay_path(Which::C02, &arg(&args, "--moves").unwrap_or_default()),
+        "c17-path" => posprops::replay_path(Which::C17, &arg(&args, "--moves").unwrap_or_default()),
         "c01-one" => posprops::replay_one(Which::C01, &arg(&args, "--fen").unwrap()),
         "c02-one" => posprops::replay_one(Which::C02, &arg(&args, "--fen").unwrap()),
         "c17-trace-one" => posprops::replay_trace_one(&arg(&args, "--fen").unwrap()),
@@ -325,6 +328,7 @@ fn dispatch_c15(cmd: &str, args: &[String], tier: &String, seed: u64, out: &Stri
             props::c15::run(&tier, seed, &out);
             0
         }
+        "c15-long" => props::c15::replay_long(arg(&args, "--steps").unwrap().parse().unwrap(), seed, arg(&args, "--variant").unwrap().parse().unwrap()),
         "c15-one" => props::c15::replay(&arg(&args, "--seq").unwrap(), seed),
         _ => return None,
     })
